@@ -492,7 +492,7 @@ pub fn run(tier: &str, seed: u64) -> i32 {
                 }
                 let mut c = Case::new("c06.reference");
                 c.rules = vec![rule.text(), rule.negated_text()];
-                c.docs = crate::gen::same_field_docs("f1");
+                c.docs = crate::gen::same_field_docs_for(rule, "f1");
                 vec![c]
             },
             judge,
